@@ -71,7 +71,12 @@ def strategy(tier):
                 # the whole table goes into its tree in one call, or streamed in two
                 "whole_calls": draw(st.sampled_from((1, 1, 2)))}
 
-    return st.one_of(*([cases()] * 5), vectorised())
+    @st.composite
+    def mixed(draw):
+        # (st.one_of would merge the repeated alternatives into one and give the vectorised family half of the cases)
+        return draw(vectorised()) if draw(st.integers(0, 5)) == 0 else draw(cases())
+
+    return mixed()
 
 
 def check_vectorised(case):
